@@ -165,7 +165,7 @@ func multiScalarmultVartimeFinal(r, point *ge25519.Ge25519, scalar *modm.Bignum2
 	// ge25519_multi_scalarmult_vartime_final(ge25519 *r, ge25519 *point, bignum256modm scalar)
 	const topbit modm.Element = modm.Element(1) << (modm.BitsPerLimb - 1)
 
-	limb := limb128bits
+	limb := modm.LimbSize - 1
 	if modm.IsOneVartime(scalar) {
 		// this will happen most of the time after Bos-Coster
 		*r = *point
@@ -227,13 +227,32 @@ func multiScalarmultVartime(r *ge25519.Ge25519, heap *batchHeap, count int) {
 	// grab an odd number of scalars to build the heap, unknown limb sizes
 	heapBuild(heap, ((count+1)/2)|1)
 
+	// partial result, if the first part of the heap was exhausted before
+	// the 128 bit scalars were added
+	var (
+		partial    ge25519.Ge25519
+		hasPartial bool
+	)
+
 	var max1, max2 heapIndex
 	for {
 		max1, max2 = heapGetTop2(heap, limbSize)
 
 		// only one scalar remaining, we're done
 		if modm.IsZeroVartime(&heap.scalars[max2]) {
-			break
+			if extended {
+				break
+			}
+
+			// The scalars examined so far collapsed to a single one before
+			// the 128 bit scalars were added to the heap.  Fold it into a
+			// partial result, and carry on with the rest of the heap.
+			multiScalarmultVartimeFinal(&partial, &heap.points[max1], &heap.scalars[max1])
+			hasPartial = true
+			heap.scalars[max1].Reset()
+			heapExtend(heap, count)
+			extended = true
+			continue
 		}
 
 		// exhausted another limb?
@@ -254,6 +273,9 @@ func multiScalarmultVartime(r *ge25519.Ge25519, heap *batchHeap, count int) {
 	}
 
 	multiScalarmultVartimeFinal(r, &heap.points[max1], &heap.scalars[max1])
+	if hasPartial {
+		ge25519.Add(r, r, &partial)
+	}
 }
 
 func isNeutralVartime(p *ge25519.Ge25519) bool {
